@@ -784,6 +784,83 @@ def g_guderley():
     return {'Guderley': (text, js)}
 
 
+@group('hutchens1')
+def g_hutchens1():
+    """Hutchens 1 (heat/hutchens1.py): sphere of radius b, surface held at Tb, uniform initial temperature T0: the series term (with its r = 0 branch),
+    the assembly Tb + (Tb - T0) * sum and the diffusivity; the loop `for n in range(1, self.Nsum)` becomes sum_range ... 1 Nsum"""
+    from py2coq import Interp, free_vars
+    mod = Module(os.path.join(S, 'heat/hutchens1.py'))
+    cn = mod.classes['Hutchens1']
+    run = [st for st in cn.body if isinstance(st, ast.FunctionDef) and st.name == '_run'][0]
+    if [a.arg for a in run.args.args] != ['self', 'r', 't']:
+        raise Unsupported('hutchens1._run: signature')
+    body = [st for st in run.body if not (isinstance(st, ast.Expr) and isinstance(st.value, ast.Constant))]
+    loops = [i for i, st in enumerate(body) if isinstance(st, ast.For)]
+    if len(loops) != 1:
+        raise Unsupported('hutchens1._run: expected one loop')
+    L = body[loops[0]]
+    if ast.unparse(L.iter) != 'range(1, self.Nsum)' or not isinstance(L.target, ast.Name):
+        raise Unsupported('hutchens1._run: loop is %s' % ast.unparse(L.iter))
+    idx = L.target.id
+    P = ['k', 'cp', 'rho', 'b', 'Tb', 'T0']
+    selfo = Obj('', {a: ('var', a) for a in P + ['Nsum']}, frozen=True, name='self')
+    env = {'self': selfo, 'r': ('var', 'r'), 't': ('var', 't')}
+    interp = Interp(mod, {})
+    pre = []
+    for st in body[:loops[0]]:
+        if isinstance(st, ast.Assign) and ast.unparse(st.targets[0]) == 'temperature':
+            if ast.unparse(st.value) != 'np.zeros(shape=r.shape)':
+                raise Unsupported('hutchens1._run: accumulator initialised by %s' % ast.unparse(st.value))
+            continue
+        pre.append(st)
+    interp.exec_body(pre, env)
+    # loop body: flatten `with np.errstate(...)`, the last statement accumulates
+    flat = []
+    for st in L.body:
+        if isinstance(st, ast.With):
+            if [ast.unparse(i.context_expr).split('(')[0] for i in st.items] != ['np.errstate']:
+                raise Unsupported('hutchens1._run: with %s' % ast.unparse(st.items[0].context_expr))
+            flat += st.body
+        else:
+            flat.append(st)
+    acc = flat[-1]
+    if not (isinstance(acc, ast.AugAssign) and isinstance(acc.op, ast.Add) and ast.unparse(acc.target) == 'temperature' and isinstance(acc.value, ast.Name)):
+        raise Unsupported('hutchens1._run: loop does not end with temperature += <name>')
+    envl = dict(env); envl[idx] = ('var', 'n')
+    interp.exec_body(flat[:-1], envl)
+    term = envl[acc.value.id]
+    if interp.raises or not is_expr(term):
+        raise Unsupported('hutchens1._run: series term')
+    # after the loop
+    post = body[loops[0] + 1:]
+    ret = post[-1]
+    if not (isinstance(ret, ast.Return) and ast.unparse(ret.value).replace(' ', '').startswith('ExactSolution([r,temperature],')):
+        raise Unsupported('hutchens1._run: return')
+    envp = dict(env); envp['temperature'] = ('var', 'SUM')
+    interp.exec_body(post[:-1], envp)
+    fin = envp['temperature']
+    text = HEADER % 'exactpack/solvers/heat/hutchens1.py'
+    js = {}
+    targs = [a for a in P + ['n', 'r', 't'] if a in free_vars(term)]
+    if set(free_vars(term)) - set(targs):
+        raise Unsupported('hutchens1: stray variables in the term')
+    text += '\n' + emit_function('h1_term', targs, term, comment='Hutchens1._run: term n of the series (np.where(r != 0, ., .) is the if)')
+    text += '#[global] Hint Unfold h1_term : epgen.\n'
+    fargs = [a for a in P + ['SUM'] if a in free_vars(fin)]
+    text += '\n' + emit_function('h1_assemble', fargs, fin, comment='Hutchens1._run: what is done with the accumulated sum SUM')
+    text += '#[global] Hint Unfold h1_assemble : epgen.\n'
+    allp = sorted(set(targs) - {'n', 'r', 't'} | set(fargs) - {'SUM'})
+    text += 'Definition h1_temperature (%s Nsum r t : R) : R :=\n  h1_assemble %s (sum_range (fun n : R => h1_term %s) 1 Nsum).\n' % (
+        ' '.join(allp), ' '.join(a for a in fargs if a != 'SUM'), ' '.join(targs))
+    text += '#[global] Hint Unfold h1_temperature : epgen.\n'
+    if fargs[-1] != 'SUM':
+        raise Unsupported('hutchens1: argument order')
+    js['h1_term'] = {'args': targs, 'expr': expr_to_json(term)}
+    js['h1_assemble'] = {'args': fargs, 'expr': expr_to_json(fin)}
+    js['h1_temperature'] = {'args': allp + ['Nsum', 'r', 't']}
+    return {'Hutchens1': (text, js)}
+
+
 def methods_group(relpath, outname, specs):
     """specs: list of (coq prefix, class, [self attribute names], [(method, [arg names])])"""
     from gen import translate_method, nan_cond, strip_nan
